@@ -220,6 +220,22 @@ CLAIMED = {
             "validate_records_strict on a one-field schema and a single-key record (all values symbolic); value classes x "
             "column types x schema-argument variants x fresh/reused handles in the thorough-tier scenario.",
             "DESIGN.md 4/C11"),
+    "C03": ("Decomposition into per-function ordering and frame contracts that hold at every storage-action boundary (a crash is a "
+            "prefix of the action trace), each proved on the real code: ATOMIC-FILE (write_file / DataFileWriter: temp name, fsync, "
+            "rename - a prefix leaves no file or the complete file), ORDER (metadata file and everything reachable from it "
+            "written before the pointer write, which is the only action that changes what readers resolve), NO-CLOBBER (before "
+            "the pointer write only fresh uuid-named files are created, behind their markers), POST-CP (after it only markers are "
+            "removed), GC-PREFIX (every single delete of a collection is for a file outside every retained snapshot's reachable "
+            "set and the protection set, so every prefix of a collection is safe), RECOVER/INIT (reopening resolves the pointer "
+            "or recovers among metadata-file names only; creation writes the metadata before the pointer). Lemma CRASH (stated "
+            "meta-argument) composes them into 'pre- or post-state, post only if the pointer was advanced'. The case 'orphan "
+            "version + lost pointer' is the known finding shared with C10.",
+            "Trusted: lemma CRASH, T-os (rename atomic; fsynced-then-renamed file complete), T-store, T-codec; power loss needs "
+            "C16's durable reading of fsync in addition. BOUNDED, not counted as proved: fork-and-kill sweep - a child process "
+            "runs create / append / multi-op / file delete / expire / delete-snapshot / collection and is killed with os._exit at "
+            "its k-th storage system call for every k (380 crash points), the parent checks pre/post state, readability of every "
+            "retained snapshot, a follow-up append and a collection (replay of every C03 unit, thorough tier).",
+            "DESIGN.md 4/C03"),
     "C16": ("Proof over the trace of T-os calls issued by the real code: LocalStorageBackend.write_file writes the whole content to a "
             "temp file in the target's directory, fsyncs it after the last write and before os.replace, fsyncs the directory after, and "
             "an exception implies the rename did not happen; DataFileWriter.open/close do the same for parquet files (fsync of the "
